@@ -185,11 +185,16 @@ Qed.
 Lemma chk_returns b st c : returns (chk b st c) = true.
 Proof. destruct b; reflexivity. Qed.
 
+Lemma parse_step_returns a b c : returns (parse_step true a b c) = true.
+Proof. unfold parse_step. destruct a, b, c; reflexivity. Qed.
+
 Lemma checks_return s : forallb returns (checks true s) = true.
 Proof.
   destruct s as [e ep fo b key cid].
-  unfold checks, legacy_fn, legacy_server, ws_client, client_id_from_request, parse_step; cbn.
-  destruct e, ep, fo, b, key, cid; reflexivity.
+  unfold checks, legacy_fn, legacy_server, ws_client, client_id_from_request.
+  destruct e, ep; cbn [sh_entry sh_ep sh_form_ok sh_basic sh_key sh_client_id forallb app];
+    rewrite ?chk_returns, ?parse_step_returns; try reflexivity;
+    destruct key; reflexivity.
 Qed.
 
 Lemma handler_single s : single (handler true s) = true.
